@@ -1,0 +1,83 @@
+//go:build verif
+
+package putsvc
+
+// Machine-checked contracts (govc, see /verif/DESIGN.md). Comment-only file.
+
+// ---- C24: the validating target in front of every storing target. For a prepared object
+// (one that arrives with its header complete: client-formed, replicated, or a slicer child)
+// the next target sees the header only after the format validator accepted it, payload bytes
+// only after they went into the checksum hash and only up to the declared size, and Close
+// only if the byte count equals the declared size and the hash equals the declared checksum.
+// A failure of the next target is never swallowed.
+
+//@ ghost field hashed(x int) uint64
+//@ ghost field forwarded(x int) uint64
+//@ ghost pred formatValid() bool
+//@ ghost pred checksumMatched() bool
+//@ ghost pred nextWriteFailed() bool
+
+//@ callrule c24_format_verdict in (*validatingTarget).WriteHeader
+//@   property C24
+//@   callee (*object.FormatValidator).Validate, (*objectcore.FormatValidator).Validate
+//@   pureeffect
+//@   defines err == nil ==> formatValid()
+//@ callrule c24_header_only_after_validation in (*validatingTarget).WriteHeader
+//@   property C24
+//@   callee (internal.Target).WriteHeader, (internal.HeaderWriter).WriteHeader
+//@   pureeffect
+//@   requires [header_forwarded_only_if_format_valid] formatValid()
+//@ callrule c24_hash_write in (*validatingTarget).Write
+//@   property C24
+//@   callee (hash.Hash).Write, (io.Writer).Write
+//@   except (internal.Target).Write
+//@   pureeffect
+//@   assigns hashed
+//@   ensures err == nil ==> hashed(0) == old(hashed(0)) + uint64(len(a0))
+//@   ensures err != nil ==> hashed(0) == old(hashed(0))
+//@ callrule c24_next_write in (*validatingTarget).Write
+//@   property C24
+//@   callee (internal.Target).Write
+//@   pureeffect
+//@   assigns forwarded
+//@   requires [chunk_within_declared_size] t.unpreparedObject || t.writtenPayload + uint64(len(a0)) <= t.payloadSz
+//@   ensures err == nil ==> res0 == len(a0) && forwarded(0) == old(forwarded(0)) + uint64(len(a0))
+//@   ensures err != nil ==> forwarded(0) == old(forwarded(0))
+//@   defines (err != nil) == nextWriteFailed()
+//@ callrule c24_checksum_verdict in (*validatingTarget).Close
+//@   property C24
+//@   callee bytes.Equal
+//@   defines result ==> checksumMatched()
+//@ callrule c24_close_only_when_complete in (*validatingTarget).Close
+//@   property C24
+//@   callee (internal.Target).Close
+//@   pureeffect
+//@   requires [closed_only_with_declared_size_and_matching_checksum] t.unpreparedObject || (t.payloadSz == t.writtenPayload && checksumMatched())
+
+// Assumed: the collaborators (SDK object getters, quota limiter, placement policy, checksum
+// helpers) do not write the validating target's own fields.
+//@ callrule c24_collaborators_keep_out in (*validatingTarget).*
+//@   property C24
+//@   callee (put.QuotaLimiter).*, (*object.Object).*, (object.Object).*, (netmap.PlacementPolicy).*, (container.Container).*, (checksum.Checksum).*, (netmap.ECRule).*, sha256.New, (hash.Hash).Sum
+//@   pureeffect
+
+//@ func (*validatingTarget).checkQuotaLimits
+//@   property C24
+//@   ensures [own_counters_untouched] t.writtenPayload == old(t.writtenPayload) && t.payloadSz == old(t.payloadSz) && t.unpreparedObject == old(t.unpreparedObject) && t.maxPayloadSz == old(t.maxPayloadSz)
+
+//@ func (*validatingTarget).WriteHeader
+//@   property C24
+//@   ensures [size_limit] err == nil && !t.unpreparedObject ==> t.payloadSz <= t.maxPayloadSz
+//@   ensures [format_validated] err == nil ==> formatValid()
+
+//@ func (*validatingTarget).Write
+//@   property C24
+//@   valid t.unpreparedObject || hashed(0) == forwarded(0)
+//@   ensures [hash_covers_exactly_the_forwarded_bytes] err == nil ==> t.unpreparedObject || hashed(0) == forwarded(0)
+//@   ensures [written_counter_follows_forwarded_bytes] err == nil ==> t.writtenPayload == old(t.writtenPayload) + uint64(len(p))
+//@   ensures [next_target_failure_is_reported] nextWriteFailed() ==> err != nil
+//@   ensures [never_beyond_declared_size] err == nil && !t.unpreparedObject ==> t.writtenPayload <= t.payloadSz
+
+//@ func (*validatingTarget).Close
+//@   property C24
+//@   ensures [success_only_with_declared_size_and_checksum] err == nil && !t.unpreparedObject ==> t.payloadSz == t.writtenPayload && checksumMatched()
